@@ -51,9 +51,15 @@ def family_types(tier, shard, nshards, acc):
     classes = dict(c14.CLASSES, tuple=tuple)
     for idx, (space, mspecs, calls, _) in enumerate(c14.programs(tier)):
         if idx % nshards == shard and not space.startswith("1r"):
-            _run(acc, "type-arguments", space, classes, mspecs, calls, lambda c: (tuple(c14.value(n) for n in c), {}))
+            _run(acc, "type-arguments", space, classes, mspecs, calls, _c14_args)
             if idx % 100 == 0:
                 gen.purge_globals()
+
+
+def _c14_args(c):
+    from . import c14
+
+    return (tuple(c14.value(n) for n in c if "=" not in n), {n.split("=", 1)[0]: c14.value(n.split("=", 1)[1]) for n in c if "=" in n})
 
 
 FAMILIES = [family_dependent, family_valuetypes, family_types]
@@ -71,7 +77,7 @@ def replay(case):
         pos2 = "y" in case["methods"][0]["types"]
         mk = lambda c: (((c11.VALUES[c[0]], c[1]) if pos2 else (c11.VALUES[c[0]],)), {})  # noqa
     else:
-        classes, mk = dict(c14.CLASSES, tuple=tuple), (lambda c: (tuple(c14.value(n) for n in c), {}))
+        classes, mk = dict(c14.CLASSES, tuple=tuple), _c14_args
     mspecs = case["methods"]
     prog = gen.Program(classes, mspecs, annotate=annot.annotate)
     methods = {ms["id"]: RefMethod(ms, i) for i, ms in enumerate(mspecs)}
